@@ -718,7 +718,13 @@ impl<'a> Gen<'a> {
                 let items = (0..n).map(|_| self.annotate_parts(m)).collect();
                 Op::AnnotateBatch { items }
             }
-            W_REMOVE_ANNOTATION => Op::RemoveAnnotation { a: self.ann_ref(m) },
+            W_REMOVE_ANNOTATION => {
+                if self.rng.chance(1, 8) && m.resources.iter().any(|r| r.live) {
+                    Op::RemoveAnnotationsOn { r: self.res_ref(m) }
+                } else {
+                    Op::RemoveAnnotation { a: self.ann_ref(m) }
+                }
+            }
             W_REMOVE_DATA => {
                 let s = self.set_ref(m);
                 let d = self.data_ref(m, &s);
